@@ -138,6 +138,12 @@ def edits(old):
     yield ("add-step-end/vector", "compatible", p)
     p = clone(); find(p, "Proto").steps.append(("addedOpt", Opt(N("Sample"))))
     yield ("add-step-end/optional", "compatible", p)
+    for where, pos in (("front", 0), ("middle", ns // 2), ("second", 1), ("before-last", ns - 1)):
+        for nm, st in (("stream", Stream(P("int32"))), ("vector", Vec(N("Header"))), ("optional", Opt(N("Sample"))), ("map", Map(P("string"), P("int32")))):
+            p = clone(); find(p, "Proto").steps.insert(pos, ("addedStep", st))
+            yield ("add-step-%s/%s" % (where, nm), "compatible" if nm != "map" else "unspecified", p)
+    p = clone(); find(p, "Proto").steps.insert(0, ("addedFirst", Opt(P("int32")))); find(p, "Proto").steps.insert(ns // 2, ("addedMid", Vec(P("int32")))); find(p, "Proto").steps.append(("addedLast", Stream(P("int32"))))
+    yield ("add-step-three-places/mixed", "compatible", p)
     # the same three kinds of added step, typed through (new) aliases: plain, alias of an alias, generic alias, imported generic alias
     for nm, adefs, st in [
             ("optional-alias", [Alias("AddedMaybeNote", Opt(P("string")))], N("AddedMaybeNote")),
@@ -284,6 +290,61 @@ def prim_changes(p):
              "float64": ["float32", "int32", "string", "int64"], "float32": ["float64", "int16", "string"],
              "uint32": ["int32", "uint64", "float32", "string"], "int64": ["int32", "float64", "string"]}
     return table.get(p, ["int32"] if p not in ("bool", "date", "time", "datetime", "complexfloat32", "complexfloat64") else [])
+
+
+# ---------------------------------------------------------------- elementary type changes in every context
+def context_jobs(tier):
+    """(label, class, old files, new files) for every elementary change of a type (documented partially compatible, documented
+    incompatible, and a few the documentation does not classify) placed under every composition of <= 2 type constructors, as a
+    step, a stream step, a record field, a generic argument and behind an alias. Oracle (differential, besides the documented
+    class at the top level): a change that is an error on its own is an error in every context, a change that is reported on
+    its own is never silent in a context."""
+    kind_old, kind_new = Enum("Kind", [("x", 0), ("y", 1)]), Enum("Kind", [("x", 0), ("y", 7)])
+    rec_old, rec_new = Record("R", [("a", P("int32"))]), Record("R", [("a", P("int32")), ("b", P("float32"))])
+    img = Alias("Img", Arr(TP("T"), 2), tparams=("T",))
+    deltas = [("int-to-long", P("int32"), P("int64"), "partial", [], []),
+              ("float-to-string", P("float32"), P("string"), "partial", [], []),
+              ("scalar-to-vector", P("int32"), Vec(P("int32")), "incompatible", [], []),
+              ("scalar-to-array", P("float32"), Arr(P("float32"), None), "incompatible", [], []),
+              ("generic-argument", N("Img", P("float32")), N("Img", P("float64")), "incompatible", [img], [img]),
+              ("enum-value", N("Kind"), N("Kind"), "incompatible", [kind_old], [kind_new]),
+              ("record-required-field", N("R"), N("R"), "partial", [rec_old], [rec_new]),
+              ("int-to-datetime", P("int32"), P("datetime"), None, [], []),
+              ("bool-to-int", P("bool"), P("int32"), None, [], []),
+              ("string-to-date", P("string"), P("date"), None, [], []),
+              ("vector-to-scalar", Vec(P("int32")), P("int32"), None, [], []),
+              ("record-to-int", N("R"), P("int32"), None, [rec_old], [rec_old])]
+    ctors = [("opt", lambda t: Opt(t)), ("vec", lambda t: Vec(t)), ("fvec", lambda t: Vec(t, 3)), ("arr", lambda t: Arr(t, 2)), ("dyn", lambda t: Arr(t, None)),
+             ("map", lambda t: Map(P("string"), t)), ("union", lambda t: Union(("a", t), ("b", P("bool")))), ("nunion", lambda t: Union(None, ("a", t), ("b", P("bool"))))]
+    ctxs = [("id", lambda t: t)] + ctors
+    for n1, f1 in ctors:
+        for n2, f2 in ctors:
+            if (n1, n2) in (("opt", "opt"), ("opt", "nunion")) or (n1 in ("union", "nunion") and n2 in ("union", "nunion")):
+                continue        # optional of optional / union directly inside a union are not types of the language
+            ctxs.append((n1 + "-of-" + n2, lambda t, f1=f1, f2=f2: f1(f2(t))))
+    places = ["step", "stream", "field", "generic-argument", "alias"]
+    if tier == "quick":
+        places = ["step", "stream", "field"]
+    box = Record("Box", [("v", TP("T")), ("n", P("int32"))], tparams=("T",))
+    for dn, told, tnew, cls, dold, dnew in deltas:
+        for cn, cf in ctxs:
+            for pl in places:
+                pkgs = []
+                for t, defs in ((told, dold), (tnew, dnew)):
+                    ct = cf(t)
+                    defs = [copy.deepcopy(d) for d in defs]
+                    if pl == "step":
+                        steps = [("s", ct)]
+                    elif pl == "stream":
+                        steps = [("s", Stream(ct))]
+                    elif pl == "field":
+                        defs.append(Record("Host", [("k", P("int32")), ("f", ct)])); steps = [("s", N("Host"))]
+                    elif pl == "generic-argument":
+                        defs.append(copy.deepcopy(box)); steps = [("s", N("Box", ct))]
+                    else:
+                        defs.append(Alias("Al", ct)); steps = [("s", Stream(N("Al")))]
+                    pkgs.append(Package("Evo", defs=defs, protocols=[Protocol("Proto", [("first", P("int32"))] + steps)], dirname="evo"))
+                yield ("ctx/%s/%s/%s" % (dn, pl, cn), cls, files_for(pkgs[0]), files_for(pkgs[1], pkgs[0]))
 
 
 # ---------------------------------------------------------------- execution
@@ -438,6 +499,10 @@ def main(tier):
                   "same-twice-around": [("vs", "../../same/evo"), ("v0", "../../old/evo"), ("vt", "../../same/evo")]}[order]
             fs["evo/_package.yml"] += "versions:\n" + "".join("  %s: %s\n" % v for v in vs)
             jobs.append(("c2/multi-version/%s/%s" % (order, l1), "any", base2f, fs, {"same": same}))
+    ctx_cls = {}
+    for label, cls, oldf_, newf_ in context_jobs(tier):
+        ctx_cls[label] = cls
+        jobs.append((label, "any", oldf_, newf_))
     # reflexive pairs on packed shape packages (all constructors)
     sh = [s for s in shapes.shapes(1, tier) if not shapes.has_vector_of_bool(s)]
     for pkg, _ in shapes.pack(sh[:: (8 if tier == "quick" else 1)], "Evo", per_package=60, with_records=True):
@@ -504,6 +569,35 @@ def main(tier):
             if va is not None and va != v:
                 chk.fail("multi-version/verdict-depends-on-other-versions/%s" % order, "%s: against this previous version alone yardl says '%s', with an identical copy of the current model also listed (%s) it says '%s'" % (
                     l1, va, order, v), {"label": label, "alone": va, "with_other_versions": v})
+    # elementary changes in context
+    ctx_err = {label: (r1.get("err") or "; ".join(r1.get("warnings") or []))[:300] for label, cls, r1, r2 in results if label.startswith("ctx/")}
+    for label, v in sorted(verdicts.items()):
+        if not label.startswith("ctx/"):
+            continue
+        _, dn, pl, cn = label.split("/")
+        cls = ctx_cls[label]
+        top = verdicts.get("ctx/%s/%s/id" % (dn, pl))
+        chk.nontriv(label)
+        case = {"label": label, "delta": dn, "placement": pl, "context": cn, "verdict": v, "verdict_without_context": top, "detail": ctx_err.get(label)}
+        if cn == "id" and cls is not None:
+            want = {"partial": "warning", "incompatible": "error"}[cls]
+            if v != want:
+                chk.fail("%s/expected-%s-got-%s/ctx-%s" % (cls, want, v, dn), "%s: documented class %s => %s, yardl says %s: %s" % (label, cls, want, v, ctx_err.get(label)), case)
+            continue
+        if "union" in cn:
+            # a union case whose type changed is a removed case plus an added one: documented as partially compatible
+            # ("adding or removing types to/from a union"), so a warning is what the documentation prescribes there
+            if top in ("warning", "error") and v == "silent":
+                chk.fail("context/change-silent-in-context/%s/%s" % (dn, cn), "%s: the change %s is reported on its own (%s: %s) but passes silently under %s" % (label, dn, pl, top, cn), case)
+            continue
+        if cls == "incompatible" and v != "error":
+            chk.fail("context/documented-incompatible-change-accepted/%s/%s" % (dn, cn), "%s: the documented incompatible change %s is %s when it happens under %s (%s)" % (
+                label, dn, "accepted silently" if v == "silent" else "accepted with a warning", cn, pl), case)
+        elif top == "error" and v != "error":
+            chk.fail("context/error-on-its-own-accepted-in-context/%s/%s" % (dn, cn), "%s: the change %s is an error on its own (%s) but is %s under %s" % (
+                label, dn, pl, "accepted silently" if v == "silent" else "accepted with a warning", cn), case)
+        elif top in ("warning", "error") and v == "silent":
+            chk.fail("context/change-silent-in-context/%s/%s" % (dn, cn), "%s: the change %s is reported on its own (%s: %s) but passes silently under %s" % (label, dn, pl, top, cn), case)
     chk.extra.update({"states": len(states), "transitions": len(results) * 2, "traces_validated_against_impl": len(results) * 2, "pairs": len(results)})
     chk.assumptions += ["the reference classes are the example lists of docs/cpp/evolution.md; edits the docs do not classify (e.g. reordering enum values) are executed for totality/determinism only",
                         "in-process LoadPackage + validatePackage stands for `yardl validate` on a package with `versions:`"]
